@@ -746,7 +746,7 @@ func Run(tier string) int {
 	res.Sample(map[string]any{"scenario": "topo=two v0=1000 v1=400 staking.delegate(caller,all) pre=wd-other dirty=signer"})
 	return engine.Finish(res, engine.Meta{
 		Property: Prop, Tier: tier, Level: "model_checking", Start: start,
-		Rule: "full grid: topology {EOA->precompile, EOA->contract->precompile, EOA->contract->contract->precompile} x value per hop {0, v} x {delegate(signer|calling contract; 1, mid, all, all+1), undelegate, withdrawDelegatorRewards, claimRewards, setWithdrawAddress} x pre-state {pending rewards, withdraw address elsewhere, no rewards} x journal-dirty set {none, signer, withdrawer}; every scenario synthesised as bytecode and delivered through DeliverTx, and replayed natively on a sibling branch; plus C05's self-destruct family (supply oracle); every clean scenario re-run with a gas price (same verdict, supply unchanged, bank store identical but for exactly gasUsed x price moved from the signer to the fee collector); non-trivial = scenario whose precompile call succeeded",
+		Rule: "envelope family (several Ethereum messages of the signer in one transaction: precompile call and transfers, 7 calls x 4 shapes vs native replay); full grid: topology {EOA->precompile, EOA->contract->precompile, EOA->contract->contract->precompile} x value per hop {0, v} x {delegate(signer|calling contract; 1, mid, all, all+1), undelegate, redelegate, cancelUnbondingDelegation, ics20.transfer, withdrawDelegatorRewards, claimRewards, setWithdrawAddress} x pre-state {pending rewards, withdraw address elsewhere, no rewards} x journal-dirty set {none, signer, withdrawer}; every scenario synthesised as bytecode and delivered through DeliverTx, and replayed natively on a sibling branch; plus C05's self-destruct family (supply oracle); every clean scenario re-run with a gas price (same verdict, supply unchanged, bank store identical but for exactly gasUsed x price moved from the signer to the fee collector); non-trivial = scenario whose precompile call succeeded",
 		Assumptions: []string{
 			"gas price 0 (fee flow is checked by C07)",
 			"contract callers hold generic staking grants from the signer (fixture)",
